@@ -423,6 +423,10 @@ def evaluate(prop, res):
         cov["nf_compared_bodies"] = nfr.get("asked", 0)
         cov["nf_equal_bodies"] = nfr.get("equal", 0)
         cov["nf_no_normal_form"] = len(nfr.get("unknown", []))
+        cov["nf_kernel_rechecked"] = nfr.get("kernel_checked", 0)
+        for (name, item) in [tuple(x) for x in nfr.get("kernel_failed", [])][:5]:
+            add("correspondence", "the kernel does not confirm the driver's answer that an emitted body is equivalent to the model's",
+                {"declaration": name, "item": item})
         for (name, item, verdict) in [tuple(x) for x in nfr.get("ast_equal_but_not_nf_equal", [])][:20]:
             add("correspondence", "a body that is syntactically the model's is not accepted by the normaliser (translator or normaliser defect)",
                 {"declaration": name, "item": item, "verdict": verdict})
